@@ -80,3 +80,10 @@ Fixpoint enc310_go (m : list (Z * Z)) (prev_line code_len : Z) : list (Z * Z) :=
       enc310_entry (end_offset - o) (l - prev_line) ++ enc310_go r l code_len
   end.
 Definition encode_lineno_tab_310 (first code_len : Z) (m : list (Z * Z)) : list Z := bytes_of_pairs (enc310_go m first code_len).
+
+(* code before the first entry belongs to no line: ranges of up to 254 bytes whose line delta is -128 (the byte 128) *)
+Definition lead310 (o : Z) : list (Z * Z) :=
+  if o >? 0 then repeat (254, 128) (Z.to_nat ((o - 1) / 254)) ++ [(o - 254 * ((o - 1) / 254), 128)] else [].
+(* Code310.encode_lineno_tab as it is: the lead-in, then the entries *)
+Definition encode_lineno_tab_310_full (first code_len : Z) (m : list (Z * Z)) : list Z :=
+  bytes_of_pairs ((match m with (o, _) :: _ => lead310 o | [] => [] end) ++ enc310_go m first code_len).
